@@ -34,6 +34,14 @@ pub struct Pair {
     pub mode: Mode,
 }
 
+thread_local! {
+    /// which document of the store is being reconciled in the current run
+    static SYNC_DOC: std::cell::Cell<u8> = const { std::cell::Cell::new(0) };
+}
+fn sd() -> u8 {
+    SYNC_DOC.with(|c| c.get())
+}
+
 #[derive(Serialize, Deserialize, Clone, Debug)]
 pub struct IdSpec {
     pub a: u8,
@@ -49,7 +57,7 @@ impl IdSpec {
             RecordIdentifier::default()
         } else {
             let w = world();
-            RecordIdentifier::new(w.doc_id(0), w.author_id(self.a), &self.k)
+            RecordIdentifier::new(w.doc_id(sd()), w.author_id(self.a), &self.k)
         }
     }
 }
@@ -74,6 +82,12 @@ pub struct PairPlan {
     /// age the open transaction at the n-th internal store call while processing message i
     pub ages: Vec<(usize, u32)>,
     pub probes: Vec<Probe>,
+    /// index of the document that is reconciled (the stores may hold other documents too)
+    #[serde(default)]
+    pub sync_doc: u8,
+    /// entries of OTHER documents living in the same real stores (never in the ordered map)
+    #[serde(default)]
+    pub other_docs: Vec<Ent>,
 }
 
 impl Scenario for Pair {
@@ -151,6 +165,8 @@ impl Scenario for Pair {
             initiator_is_a: rng.chance(1, 2),
             ages,
             probes,
+            sync_doc: if rng.chance(1, 2) { 0 } else { rng.below(4) as u8 },
+            other_docs: if rng.chance(1, 2) { Vec::new() } else { (0..rng.urange(1, 6)).map(|_| { let mut e = gen_ent(rng, &g); e.d = rng.below(4) as u8; e }).collect() },
         }
     }
 
@@ -178,6 +194,16 @@ impl Scenario for Pair {
         if !plan.ages.is_empty() {
             let mut p = plan.clone();
             p.ages.clear();
+            out.push(p);
+        }
+        if !plan.other_docs.is_empty() {
+            let mut p = plan.clone();
+            p.other_docs.clear();
+            out.push(p);
+        }
+        for c in shrink_vec(&plan.other_docs) {
+            let mut p = plan.clone();
+            p.other_docs = c;
             out.push(p);
         }
         if plan.backend_a != Backend::Mem || plan.backend_b != Backend::Mem {
@@ -304,17 +330,17 @@ impl Side {
     async fn fill(&mut self, items: &[Ent]) -> Res {
         match self {
             Side::Real(s) => {
-                ensure_doc(s.store(), 0)?;
+                ensure_doc(s.store(), sd())?;
                 for e in items {
                     let mut e = e.clone();
-                    e.d = 0;
+                    e.d = sd();
                     offer(s.store(), &e, Path::Remote).await?;
                 }
             }
             Side::Map(m) => {
                 for e in items {
                     let mut e = e.clone();
-                    e.d = 0;
+                    e.d = sd();
                     ranger_ext::put(m, e.signed()).map_err(|e| harness(format!("map put: {e:#}")))?;
                 }
             }
@@ -324,13 +350,13 @@ impl Side {
 
     fn dump(&mut self) -> Res<crate::sut::Dump> {
         match self {
-            Side::Real(s) => dump(s.store(), 0).map_err(harness),
+            Side::Real(s) => dump(s.store(), sd()).map_err(harness),
             Side::Map(m) => {
                 let mut doc = RefDoc::default();
                 let mut alien = vec![];
                 let mut raw = vec![];
                 for e in m.data.values() {
-                    match crate::world::ent_of(0, e) {
+                    match crate::world::ent_of(sd(), e) {
                         Some(ent) => {
                             doc.0.insert((ent.a, ent.k.clone()), ent);
                         }
@@ -346,7 +372,7 @@ impl Side {
     fn initial(&mut self) -> Res<ProtocolMessage> {
         match self {
             Side::Real(s) => {
-                let ns = world().doc_id(0);
+                let ns = world().doc_id(sd());
                 let mut r = s.store().open_replica(&ns).map_err(|e| harness(format!("open: {e}")))?;
                 let m = r.sync_initial_message().map_err(|e| Violation::new("terminate/error", format!("initial message failed: {e:#}")));
                 drop(r);
@@ -360,7 +386,7 @@ impl Side {
     async fn process(&mut self, msg: ProtocolMessage, out: &mut SyncOutcome) -> Res<Option<ProtocolMessage>> {
         match self {
             Side::Real(s) => {
-                let ns = world().doc_id(0);
+                let ns = world().doc_id(sd());
                 iroh_docs::verif::set_wall_clock_micros(Some(1_000_000));
                 let mut r = s.store().open_replica(&ns).map_err(|e| harness(format!("open: {e}")))?;
                 let res = r.sync_process_message(msg, [7u8; 32], out).await;
@@ -437,6 +463,10 @@ async fn session(init: &mut Side, acc: &mut Side, bound: usize, ages: &[(usize, 
 impl Pair {
     async fn run(&self, plan: &PairPlan, cx: &mut Cx) -> Res {
         iroh_docs::verif::set_sync_config(Some((plan.max_set_size.max(1), plan.split_factor.max(2))));
+        SYNC_DOC.with(|c| c.set(plan.sync_doc % 4));
+        if plan.other_docs.iter().any(|e| e.d != sd()) {
+            cx.probe("other_documents_in_the_same_store");
+        }
         let variants: Vec<(&str, bool)> = match self.mode {
             Mode::Converge => vec![("planned", false)],
             Mode::Differential => vec![("mem", false), ("disk", false), ("map", true)],
@@ -457,6 +487,15 @@ impl Pair {
                     }
                 }
             };
+            // neighbours first: documents with smaller and larger ids in the same stores
+            for side in [&mut a, &mut b] {
+                if let Side::Real(s) = side {
+                    for e in plan.other_docs.iter().filter(|e| e.d != sd()) {
+                        ensure_doc(s.store(), e.d)?;
+                        offer(s.store(), e, Path::Remote).await?;
+                    }
+                }
+            }
             a.fill(&plan.a_items).await?;
             b.fill(&plan.b_items).await?;
             let a0 = a.dump()?;
@@ -534,7 +573,7 @@ impl Pair {
     /// Compare the storage primitives of the real store with the ordered-map definitions.
     fn probe_primitives(&self, s: &mut Sut, held: &[SignedEntry], probes: &[Probe], mutating: bool, vname: &str, cx: &mut Cx) -> Res {
         use ranger_ext::Backend as _;
-        let ns = world().doc_id(0);
+        let ns = world().doc_id(sd());
         let mut map = MapStore::default();
         for e in held {
             map.data.insert(e.id().as_ref().to_vec(), e.clone());
